@@ -73,6 +73,13 @@ func runBarrierCase(t *rapid.T, f *failer) (log []bev, nflush int, ab *skiplist.
 	}
 	sl := skiplist.NewWithConfig(cfg)
 	ab = sl.GetAccesBarrier()
+	// start deep into the sequence-number space in a fifth of the cases (state after that many flushes)
+	if rapid.IntRange(0, 4).Draw(t, "deep") == 0 {
+		base := []uint64{1 << 15, 1 << 16, 1 << 31, 1 << 32, 1 << 62}[rapid.IntRange(0, 4).Draw(t, "seqbase")]
+		start := base - uint64(rapid.IntRange(0, 6).Draw(t, "seqback"))
+		ab.VerifFastForward(start)
+		f.logf("fast-forward seqno=%d", start)
+	}
 	for i := 0; i < nth; i++ {
 		script := scripts[i]
 		s.Go(func(th *sched.Thread) {
